@@ -70,7 +70,7 @@ func (b *deprecatedStateBackend) Store(
 	newClasses map[felt.Felt]core.ClassDefinition,
 ) error {
 	//nolint:staticcheck,nolintlint // used by old state
-	return b.database.Update(func(txn db.IndexedBatch) error {
+	return b.resetFilterOnError(b.database.Update(func(txn db.IndexedBatch) error {
 		if err := verifyBlockSuccession(txn, block); err != nil {
 			return err
 		}
@@ -98,12 +98,12 @@ func (b *deprecatedStateBackend) Store(
 		}
 
 		return b.runningFilter.InsertWithBatch(txn, block.EventsBloom, block.Number)
-	})
+	}))
 }
 
 func (b *deprecatedStateBackend) RevertHead() error {
 	//nolint:staticcheck,nolintlint // used by old state
-	return b.database.Update(func(txn db.IndexedBatch) error {
+	return b.resetFilterOnError(b.database.Update(func(txn db.IndexedBatch) error {
 		blockNumber, err := core.GetChainHeight(txn)
 		if err != nil {
 			return err
@@ -128,7 +128,7 @@ func (b *deprecatedStateBackend) RevertHead() error {
 		}
 
 		return b.runningFilter.OnReorgWithBatch(txn)
-	})
+	}))
 }
 
 func (b *deprecatedStateBackend) GetReverseStateDiff() (core.StateDiff, error) {
@@ -200,7 +200,7 @@ func (b *deprecatedStateBackend) Finalise(
 	sign core.BlockSignFunc,
 ) error {
 	//nolint:staticcheck,nolintlint // used by old state
-	return b.database.Update(func(txn db.IndexedBatch) error {
+	return b.resetFilterOnError(b.database.Update(func(txn db.IndexedBatch) error {
 		err := updateStateRoots(deprecatedstate.New(txn), block, stateUpdate, newClasses)
 		if err != nil {
 			return err
@@ -232,7 +232,7 @@ func (b *deprecatedStateBackend) Finalise(
 		}
 
 		return b.runningFilter.InsertWithBatch(txn, block.EventsBloom, block.Number)
-	})
+	}))
 }
 
 func (b *deprecatedStateBackend) VerifyBlockHash(
